@@ -122,3 +122,117 @@ def run(ctx, func, cfg, mapping_=None):
     keyvals = {k: [Sym(v, "str", True) for v in vals] for k, vals in (mapping_ or MAPPING)}
     traces = interp.run(func, {"keyvals": keyvals, "dialect": dialect, "keep_order": bool(cfg.get("_keep_order")), "sort_attribute_values": False})
     return traces
+
+
+# ===================================================================== parser
+# Template-level round trip: the template a consistent dialect denotes for the
+# symbolic mapping is fed to parser._split_keyvals (same dataflow domain:
+# strings with holes; holes are free of the structural characters), once with
+# the dialect supplied and once inferred.  Expected: the mapping comes back,
+# and inference reports the dialect the template was written in.
+
+STRUCTURAL = ' ;=,"\t\n%&'
+
+FAMILIES = {
+    # name: (fmt reported by inference, key/value separator, quoted)
+    "gff3": ("gff3", "=", False),
+    "gtf": ("gtf", " ", True),
+    "gff2-unquoted": ("gff3", " ", False),   # inference leaves fmt at its default for unquoted blank-separated values
+}
+
+
+def parse_configs():
+    for fam, (fmt, kvsep, quoted) in FAMILIES.items():
+        for fsep, trailing, rep in itertools.product((";", "; ", " ; "), (False, True), (False, True)):
+            yield fam, {"fmt": fmt, "repeated keys": rep, "quoted GFF2 values": quoted, "trailing semicolon": trailing,
+                        "field separator": fsep, "keyval separator": kvsep, "multival separator": ",",
+                        "leading semicolon": False, "order": ["k1", "k2", "k3"], "_ignore": False}
+
+
+PARSE_MAPPINGS = [
+    [("k1", ["v1", "v2"]), ("k2", ["v3"]), ("k3", [])],
+    [("k1", ["v1"]), ("k2", ["v2", "v3"])],
+]
+# quoted values may contain blanks (runs of them): they come back unchanged
+PARSE_MAPPINGS_QUOTED = [
+    [("k1", ["w1  w2"]), ("k2", ["v3 w3"])],
+]
+
+
+def template_astr(cfg, mapping_):
+    """The template as a string with holes.  An encoded value is the hole
+    enc(v): percent-decoding it yields v; decoding a raw hole v yields dec(v)."""
+    parts = []
+    for t in spec_tokens(cfg, mapping_):
+        if isinstance(t, str):
+            parts.append(t)
+        elif t[0] == "enc":
+            parts.append(Sym("enc(%s)" % t[1], "str", True))
+        elif " " in t[1]:
+            # a value with blanks inside (legitimate inside quotes): holes joined by the literal blanks
+            import re as _re
+            for piece in _re.split(r"( +)", t[1]):
+                if piece:
+                    parts.append(piece if piece.isspace() else Sym(piece, "str", True))
+        else:
+            parts.append(Sym(t[1], "str", True))
+    return AStr(parts)
+
+
+def value_name(v):
+    """How names_of renders the value named v."""
+    if " " not in v:
+        return v
+    import re as _re
+    return "".join(p if p.isspace() else "\u27e6%s\u27e7" % p for p in _re.split(r"( +)", v) if p)
+
+
+def _unquote_summary(interp, pos, kw, node):
+    v = pos[0]
+    name = v.name if isinstance(v, Sym) else (v.parts[0].name if isinstance(v, AStr) and len(v.parts) == 1 and isinstance(v.parts[0], Sym) else None)
+    interp.trace.events.append(("unquote", v, node))
+    if name is None:
+        if isinstance(v, str):
+            return v
+        if isinstance(v, AStr):
+            # composite text: decode hole by hole, literal text is free of '%' in these templates
+            out = []
+            for p_ in v.parts:
+                if isinstance(p_, Sym):
+                    out.append(_unquote_summary(interp, [p_], {}, node))
+                else:
+                    out.append(p_)
+            return AStr(out).simplify()
+        raise Unsupported("percent-decoding of %r" % (v,))
+    if name.startswith("enc(") and name.endswith(")"):
+        return Sym(name[4:-1], "str", True)
+    return Sym("dec(%s)" % name, "str", True)
+
+
+def parse_run(ctx, func, text, dialect, pattern):
+    from .absint import RegexVal, TypeVal
+    ov = {("constants", "ignore_url_escape_characters"): False,
+          ("feature", "dict_class"): TypeVal("dict"), ("attributes", "dict_class"): TypeVal("dict"), ("parser", "dict_class"): TypeVal("dict")}
+    if pattern is not None:
+        ov[("parser", pattern[0])] = RegexVal(pattern[1])
+    interp = Interp(ctx, overrides=ov)
+    interp.ext_summaries["urllib.parse.unquote"] = _unquote_summary
+    interp.hole_free_of = STRUCTURAL
+    return interp.run(func, {"keyval_str": text, "dialect": dialect})
+
+
+def names_of(quals):
+    """{key: [value names]} of a parsed mapping."""
+    out = {}
+    for k, vals in quals.items():
+        k_ = k if isinstance(k, str) else (k.render() if isinstance(k, AStr) else repr(k))
+        vs = []
+        for v in vals:
+            if isinstance(v, Sym):
+                vs.append(v.name)
+            elif isinstance(v, AStr):
+                vs.append(v.parts[0].name if len(v.parts) == 1 and isinstance(v.parts[0], Sym) else v.render())
+            else:
+                vs.append(v)
+        out[k_] = vs
+    return out
